@@ -21,7 +21,8 @@ DISASM_DRIVER = os.path.join(COQ, "extract", "disasm_driver")
 
 C16_THEOREMS = ["C16_never_panics", "C16_total", "C16_read_error_is_error", "C16_long_line_is_error",
                 "C16_done_means_complete", "C16_function_scoped", "C16_function_scoped_lines",
-                "C16_append_monotone", "C16_reported_in_table", "C16_other_architectures_refused", "C16_example"]
+                "C16_append_monotone", "C16_reported_in_table", "C16_supported_records", "C16_other_architectures_refused",
+                "C16_x32_refused", "C16_example"]
 
 MAX_TOKEN = 65536
 
@@ -39,15 +40,14 @@ C16_ASSUMPTIONS = [
     "int has 64 bits (int(num) is the identity): the harness runs on amd64",
     "a read error in the middle of a file cannot be provoked through the os.File path API on this host (a pty hang-up reads as EOF): "
     "the theorem covers every prefix, the implementation run covers offset 0 (directory) and scanner errors at every position",
-    "ExtractSyscalls selects parser and table by audit id: arch.X32 is read with the x86_64 table (model and code agree; reported to the design owner)",
 ]
 
 SYSCALL_FUNCS = ["syscall.Syscall(SB)", "syscall.Syscall6(SB)", "syscall.rawVforkSyscall(SB)", "syscall.RawSyscall(SB)",
                  "syscall.RawSyscall6(SB)", "unix.RawSyscall(SB)", "unix.RawSyscall6(SB)", "unix.RawSyscallNoError(SB)",
                  "unix.Syscall(SB)", "unix.Syscall6(SB)", "unix.Syscall9(SB)", "unix.SyscallNoError(SB)"]
 
-# the parser (and so the table) ExtractSyscalls selects for an architecture record: by audit id
-PARSER_OF = {"I386": "I386", "X86_64": "X86_64", "X32": "X86_64"}
+# the architecture records the package supports (x32 shares the audit id of x86_64 but has another table: refused)
+PARSER_OF = {"I386": "I386", "X86_64": "X86_64"}
 RAW_INS = {"I386": [b"INT $0x80", b"SYSENTER"], "X86_64": [b"SYSCALL"]}
 
 
@@ -80,10 +80,10 @@ class Runner:
         for ln in self.header.splitlines():
             f = ln.split(" ")
             if f[0] == "A":
-                self.arch_ids[f[1]] = int(f[2])
+                self.arch_ids[f[1]] = (int(f[2]), int(f[3]))
             elif f[0] == "T":
-                n = int(f[3])
-                self.tables[f[1]] = {int(f[4 + 2 * i]): unhx(f[5 + 2 * i]) for i in range(n)}
+                n = int(f[4])
+                self.tables[f[1]] = {int(f[5 + 2 * i]): unhx(f[6 + 2 * i]) for i in range(n)}
 
     def run(self, lines):
         """Returns (go_results, model_results), one output line per input line."""
@@ -144,11 +144,11 @@ class SiteModel:
               "MOVB $0x1, 0x18(SP)", "CALL syscall.Syscall.func1(SB)", "MOVQ $-0x1, 0x28(SP)"]
     NUMBER_FORMS = ["hex", "dec", "oct", "oct_o", "bin", "under", "upper", "plus"]
 
-    def __init__(self, rng, arch, table):
+    def __init__(self, rng, arch, table, known=None):
         self.rng = rng
         self.arch = arch                 # parser: "I386" | "X86_64"
         self.table = table               # num -> name (bytes)
-        self.known = sorted(table)
+        self.known = sorted(table) if known is None else sorted(known)   # the numbers used for sites with a known number
         self.stats = {}
 
     def count(self, k):
@@ -465,11 +465,14 @@ def property_problems(item, tables):
     """The implementation's results against the property itself (no model involved). Returns a list of strings."""
     probs = []
     parser = PARSER_OF.get(item.arch)
-    table = tables.get(parser, {})
+    table = tables.get(item.arch, {})          # the table of the architecture record that was passed in
     for i, res in enumerate(item.go):
         st, v = res
         data, mode = item.datas[i], item.modes[i]
-        want_err = parser is None or mode != "file" or too_long(data)
+        # the property says nothing about which architectures are supported: a record that is refused is fine
+        if parser is None and st == "ERR":
+            continue
+        want_err = mode != "file" or too_long(data)
         if st == "PANIC":
             probs.append("input %d: ExtractSyscalls panicked: %s" % (i, v))
         elif st == "ERR_WITH_VALUE":
@@ -477,13 +480,14 @@ def property_problems(item, tables):
         elif st == "ERR" and not want_err:
             probs.append("input %d: an error was returned for a text that can be read to the end (no line of %d bytes or more)" % (i, MAX_TOKEN))
         elif st == "OK" and want_err:
-            why = ("the architecture is not supported" if parser is None else "the path is a directory / does not exist" if mode != "file"
+            why = ("the path is a directory / does not exist" if mode != "file"
                    else "a line has %d bytes or more, the scanner cannot read the text to the end" % MAX_TOKEN)
             probs.append("input %d: a result (%d records) was returned although %s: silent truncation" % (i, len(v), why))
         elif st == "OK":
             for r in v:
                 if r[0] < 0 or table.get(r[0]) != r[1]:
-                    probs.append("input %d: reported syscall (%d, %r) is not an entry of the %s table" % (i, r[0], r[1].decode("utf-8", "replace"), parser))
+                    probs.append("input %d: reported syscall (%d, %r) is not an entry of the table of arch.%s (which has %r for that number)"
+                                 % (i, r[0], r[1].decode("utf-8", "replace"), item.arch, table.get(r[0], b"nothing").decode("utf-8", "replace")))
                     break
     oks = [r[0] == "OK" for r in item.go]
     if item.kind == "listing" and oks[0]:
@@ -521,6 +525,9 @@ def generate_items(rng, tier, tables):
     items = []
     dist = {}
     models = {a: SiteModel(rng, a, tables[a]) for a in ("X86_64", "I386")}
+    # x32 listings: x86_64 code whose syscall numbers mean something else (or nothing) in the x32 table
+    x32_foreign = [n for n, name in tables["X86_64"].items() if tables.get("X32", {}).get(n) != name]
+    models["X32"] = SiteModel(rng, "X86_64", tables["X86_64"], known=x32_foreign or None)
 
     def add(it, label):
         items.append(it)
@@ -536,8 +543,10 @@ def generate_items(rng, tier, tables):
         add(Item("listing", a, [text], expected=exp), "listing/" + a)
     # the same text under an architecture that shares the parser / is not supported
     for _ in range(12 * scale):
+        text, exp, desc = models["X32"].listing()
+        add(Item("text", "X32", [text], note="X32 has the audit id of X86_64 but another table; the sites use numbers whose x86_64 entry is not an x32 entry (e.g. 13)"),
+            "text/X32")
         text, exp, desc = models["X86_64"].listing()
-        add(Item("listing", "X32", [text], expected=exp, note="X32 has the audit id of X86_64: read with the x86_64 parser and table"), "listing/X32")
         add(Item("text", rng.choice(["ARM", "AARCH64", "MIPS", "PPC64LE", "S390X"]), [text]), "text/unsupported-arch")
     # mutated and arbitrary texts
     for _ in range(350 * scale):
